@@ -129,7 +129,7 @@ theorem finishUnstakingStep_paused {L L' : Ledger} {a : Addr} (h : finishUnstaki
   · split at h
     · exact absurd h (by intro h; cases h)
     · next La ha =>
-      obtain ⟨acc, rfl, _⟩ := accountAdd_ok ha
+      obtain ⟨acc, vs, rfl, _⟩ := accountAdd_ok ha
       unfold deleteValidator at h
       obtain ⟨L1, h1, h⟩ := bind_ok h
       obtain ⟨_, rfl⟩ := subFromStaked_ok h1
@@ -294,7 +294,7 @@ theorem distributeReward_inv {L L1 : Ledger} {a : Addr} {p pool samples d : Nat}
     · next L' h1 =>
       simp only [Except.ok.injEq, Prod.mk.injEq] at h
       obtain ⟨_, rfl⟩ := h
-      obtain ⟨acc, rfl, _⟩ := accountAdd_ok h1
+      obtain ⟨acc, vs, rfl, _⟩ := accountAdd_ok h1
       exact ⟨hs.of_same rfl rfl rfl rfl rfl rfl rfl, rfl, rfl⟩
   · next val hv =>
     split at h
@@ -311,7 +311,7 @@ theorem distributeReward_inv {L L1 : Ledger} {a : Addr} {p pool samples d : Nat}
       · next L' h1 =>
         simp only [Except.ok.injEq, Prod.mk.injEq] at h
         obtain ⟨_, rfl⟩ := h
-        obtain ⟨acc, rfl, _⟩ := accountAdd_ok h1
+        obtain ⟨acc, vs, rfl, _⟩ := accountAdd_ok h1
         exact ⟨hs.of_same rfl rfl rfl rfl rfl rfl rfl, rfl, rfl⟩
 
 theorem distributeStubs_inv {chain pool samples : Nat} : ∀ (ps : List (Addr × Nat)) (L L1 : Ledger) (tot tot' : Nat),
